@@ -4,6 +4,9 @@
 # reference inflate) on every real `qpdf --linearize` output over generated documents and corpus files x
 # object-stream modes x encryption x stream-data modes; `qpdf --check-linearization` silent;
 # `qpdf --show-linearization` values = the decoded hint tables.
+# The checker's page needs include what a page still inherits through /Parent (clauses 512 / 535); the shared-object identifiers of
+# every page are also computed by the model of calculateLinearizationData's last loop (coq/Lin/SharedIds.v, theorems c07sh_*) from the users
+# found in the file and compared with the file's table (corr:C07:shared-identifiers).
 # Tie: the model of qpdf's hint encoder (coq/Lin/Hints.v) must reproduce the real hint stream byte for byte from
 # the quantities found in the file; BitWriter/BitStream of libqpdf.a vs the model on random operation lists;
 # parameter-dictionary text / 200-byte padding / 21-character /Prev / pass-1 offsets vs the arithmetic model.
@@ -12,7 +15,8 @@ import common, filecheck, pdfgen
 from pdfgen import Name, Ref, Str, Real, Stream, D, N
 
 ASSUMPTIONS = [
-    "the Annex F checker is the specification (written from ISO 32000-1 Annex F, Tables F.1, F.3-F.7); 'objects a page needs' is read as: everything reachable from the page object without passing through /Parent, /Thumb or another page object; an object inside an object stream is located by its object stream",
+    "the Annex F checker is the specification (written from ISO 32000-1 Annex F, Tables F.1, F.3-F.7); 'objects a page needs' is read as: everything reachable from the page object without passing through /Parent, /Thumb or another page object, plus - when the page has no entry of its own for /Resources, /MediaBox, /CropBox or /Rotate - the nearest ancestor /Pages node that has one and whatever that value references (ISO 32000-1 7.7.3.4); an object inside an object stream is located by its object stream",
+    "api-sequences: histories of public QPDF / QPDFWriter calls on one QPDF object are outside the property's quantifier (inputs x command-line configurations); they are run because the writer and the checker share cached state, and their outputs are judged by the same clauses",
     "hint streams of encrypted outputs are encrypted: the hint-table clauses are judged on unencrypted outputs only, the parameter-dictionary / offset / ordering clauses on all; in encrypted outputs that use object streams the page tree may be unreadable, then /O and /N are not judged either (listed as notes)",
     "items 6-9 of the page offset hint table header and items 6-7 per page (content stream offset/length) and the shared-object numerators are decoded but not judged (qpdf follows Acrobat, PDF Reference 1.7 implementation notes 126-127)",
     "overflow hint streams, thumbnail and the other optional hint tables are outside (qpdf never writes them)",
@@ -41,6 +45,9 @@ CLAUSE = {
     335: "a page needs a member of an object stream (no document-level user) that is neither in the page's run, nor in the shared object table, nor before the first page",
     412: "an object the first page needs is also reached from the first page's own /Thumb and lies at or after /E (with the thumbnails)",
     435: "a page needs an object that is also reached from the page's own /Thumb and is neither in the page's run, nor in the shared object table, nor before the first page",
+    512: "the first page still inherits /Resources, /MediaBox, /CropBox or /Rotate through /Parent from a page-tree node that lies at or after /E (or the inherited value does)",
+    535: "a page still inherits /Resources, /MediaBox, /CropBox or /Rotate through /Parent from a page-tree node that is neither in the page's run, nor in the shared object table, nor before the first page",
+    635: "a page needs an object that is also reached from ANOTHER page's /Thumb and is neither in the page's run, nor in the shared object table, nor before the first page (with the thumbnails)",
     212: "an object the first page needs is also reached from /Outlines and lies at or after /E (with the outlines)",
     235: "a page needs an object that is also reached from a document-level key and is neither in the page's run, nor in the shared object table, nor before the first page",
     135: "a page needs a member of an object stream that is neither in the page's run, nor in the shared object table, nor before the first page",
@@ -266,6 +273,183 @@ def gen_inputs(rng, n, wd):
         p = os.path.join(wd, "g%d.pdf" % i)
         open(p, "wb").write(data)
         out.append({"name": "g%d" % i, "path": p, "kind": "generated", "npages": npages, "features": sorted(feat), "id": idk})
+    return out
+
+
+# ------------------------------------------------------------------ user-pair shapes and inheritance shapes
+# calculateLinearizationData decides the part of an object, and the shared-object identifiers of a page, from the SET of the
+# object's users. pair_doc: one document per kind of second user K, holding three indirect objects x used by K and by
+#   role a: exactly one later page (page 1)      role b: two later pages (pages 2 and 3)      role c: the first page and page 4
+# with the outline tree absent / present / opened with the document (/PageMode /UseOutlines puts the outline objects into the
+# first-page section and thereby into the shared object table).
+PAIR_KINDS = ["outline-action", "outline-dest", "outline-aux", "names", "other-root-key", "info", "openaction", "acroform", "threads",
+              "viewerprefs", "thumb-other", "thumb-own", "pages-only"]
+PAIR_ROLES = {"a": [1], "b": [2, 3], "c": [0, 4]}
+
+
+def pair_doc(kind, outl, npages=6):
+    """outl: 'none' | 'plain' | 'use' (outline tree absent / present / present with /PageMode /UseOutlines)"""
+    d = pdfgen.Doc()
+    cat = d.add(None)
+    pages = d.add(None)
+    font = d.add(D(Type=N("Font"), Subtype=N("Type1"), BaseFont=N("Helvetica")))
+    page_refs = []
+    for k in range(npages):
+        cs = d.add(Stream({}, ("BT /F1 12 Tf 72 720 Td (Pair %d) Tj ET\n" % k).encode() + b"% filler\n" * (2 * k)))
+        page_refs.append(d.add(D(Type=N("Page"), Parent=pages, MediaBox=[0, 0, 612, 792], Contents=cs, Resources=D(Font=D(F1=font)))))
+    d.objects[pages.n] = D(Type=N("Pages"), Count=npages, Kids=list(page_refs))
+    c = D(Type=N("Catalog"), Pages=pages)
+    d.trailer = {b"Root": cat}
+    # the three shared objects and how a page refers to them (through a private, indirect link annotation)
+    xs = {}
+    for r, pgs in PAIR_ROLES.items():
+        tgt = page_refs[(pgs[0] + 1) % npages]
+        if kind in ("outline-action", "openaction"):
+            xs[r] = (d.add(D(Type=N("Action"), S=N("GoTo"), D=[tgt, N("XYZ"), 72, 720, None])), b"A")
+        elif kind in ("outline-dest", "names"):
+            xs[r] = (d.add([tgt, N("XYZ"), 72, 720, None]), b"Dest")
+        else:
+            xs[r] = (d.add(D(Marker=Str(b"shared " + r.encode()), Deep=d.add([1, 2, 3]))), b"AuxRes")
+        for pg in pgs:
+            a = d.add({b"Type": N("Annot"), b"Subtype": N("Link"), b"Rect": [72, 650, 300, 670], b"Border": [0, 0, 0], xs[r][1]: xs[r][0]})
+            po = d.objects[page_refs[pg].n]
+            po[b"Annots"] = list(po.get(b"Annots", [])) + [a]
+    X = {r: v[0] for r, v in xs.items()}
+    if outl != "none" or kind.startswith("outline-"):
+        ol = d.add(None)
+        items = []
+        for i, r in enumerate(["a", "b", "c", None]):
+            it = D(Title=Str(b"Chapter %d" % (i + 1)), Parent=ol)
+            if r is not None and kind.startswith("outline-"):
+                it[{"outline-action": b"A", "outline-dest": b"Dest", "outline-aux": b"AuxRes"}[kind]] = X[r]
+                if kind == "outline-aux":
+                    it[b"Dest"] = [page_refs[i], N("Fit")]
+            else:
+                it[b"Dest"] = [page_refs[min(i, npages - 1)], N("Fit")]
+            items.append(d.add(it))
+        for i, it in enumerate(items):
+            if i > 0:
+                d.objects[it.n][b"Prev"] = items[i - 1]
+            if i + 1 < len(items):
+                d.objects[it.n][b"Next"] = items[i + 1]
+        d.objects[ol.n] = D(Type=N("Outlines"), First=items[0], Last=items[-1], Count=len(items))
+        c[b"Outlines"] = ol
+        if outl == "use":
+            c[b"PageMode"] = N("UseOutlines")
+    allx = [X["a"], X["b"], X["c"]]
+    if kind == "names":
+        c[b"Names"] = d.add(D(Dests=d.add(D(Names=[Str(b"a"), X["a"], Str(b"b"), X["b"], Str(b"c"), X["c"]]))))
+    elif kind == "other-root-key":
+        c[b"PieceInfo"] = d.add(D(App=D(Private=allx)))
+    elif kind == "info":
+        d.trailer[b"Info"] = d.add(D(Title=Str(b"t"), AuxRes=allx))
+    elif kind == "openaction":
+        c[b"OpenAction"] = d.add(D(Type=N("Action"), S=N("GoTo"), D=[page_refs[0], N("Fit")], Next=allx))
+    elif kind == "acroform":
+        c[b"AcroForm"] = d.add(D(Fields=[], DA=Str(b"/F1 0 Tf"), AuxRes=allx))
+    elif kind == "threads":
+        th = d.add(None)
+        bd = d.add(None)
+        d.objects[bd.n] = D(Type=N("Bead"), T=th, N=bd, V=bd, P=page_refs[0], R=[0, 0, 10, 10])
+        d.objects[th.n] = D(Type=N("Thread"), F=bd, I=D(Title=Str(b"t"), AuxRes=allx))
+        c[b"Threads"] = [th]
+    elif kind == "viewerprefs":
+        c[b"ViewerPreferences"] = d.add(D(HideToolbar=True, AuxRes=allx))
+    elif kind == "thumb-other":
+        d.objects[page_refs[5].n][b"Thumb"] = d.add(Stream(D(Width=1, Height=1, ColorSpace=N("DeviceGray"), BitsPerComponent=8, Aux=allx), b"\x80"))
+    elif kind == "thumb-own":
+        for r, pg in (("a", 1), ("b", 2), ("c", 0)):
+            d.objects[page_refs[pg].n][b"Thumb"] = d.add(Stream(D(Width=1, Height=1, ColorSpace=N("DeviceGray"), BitsPerComponent=8, Aux=X[r]), b"\x40"))
+    d.objects[cat.n] = c
+    return d
+
+
+# inheritable page attributes (ISO 32000-1 7.7.3.4): before linearizing, every one of them has to be pushed down to the pages
+INH_KEYS = [b"Resources", b"MediaBox", b"CropBox", b"Rotate"]
+
+
+def inh_doc(rng, levels, plan, npages=None):
+    """page tree of `levels` levels of /Pages nodes above the pages (1 = flat). plan: {node level (0 = root): {key: 'direct' | 'indirect'}};
+    the pages carry none of the planned keys unless rng decides (plan[-1] = set of keys some pages override). Values differ per node."""
+    d = pdfgen.Doc()
+    cat = d.add(None)
+    root = d.add(None)
+    fonts = [d.add(D(Type=N("Font"), Subtype=N("Type1"), BaseFont=N(b"Helvetica" if i == 0 else b"Courier"))) for i in range(2)]
+    npages = npages or rng.choice([2, 3, 5, 7])
+    serial = [0]
+
+    def value(key, how, lvl):
+        serial[0] += 1
+        k = serial[0]
+        if key == b"Resources":
+            v = {b"Font": {b"F1": fonts[lvl % 2]}, b"ProcSet": [N("PDF"), N("Text")]}
+        elif key == b"MediaBox":
+            v = [0, 0, 612 - k, 792 - lvl]
+        elif key == b"CropBox":
+            v = [10 + k, 10 + lvl, 500, 600]
+        else:
+            return 90 * (1 + (k + lvl) % 3)          # /Rotate is a scalar: always direct
+        return d.add(v) if how == "indirect" else v
+
+    override = plan.get(-1, set())
+    page_refs = []
+    for k in range(npages):
+        cs = d.add(Stream({}, ("BT /F1 12 Tf 72 720 Td (Inh %d) Tj ET\n" % k).encode()))
+        pg = D(Type=N("Page"), Contents=cs)
+        if k % 3 == 2:      # some pages hide the ancestors' values by their own
+            for key in sorted(override):
+                pg[key] = {b"Resources": {b"Font": {b"F1": fonts[1]}}, b"MediaBox": [0, 0, 600, 700 + k], b"CropBox": [5, 5, 400, 500], b"Rotate": 270}[key]
+        page_refs.append(d.add(pg))
+
+    def build(lvl, refs, parent):
+        """node at level lvl over the pages refs"""
+        me = d.add(None) if lvl > 0 else root
+        node = D(Type=N("Pages"), Count=len(refs))
+        if parent is not None:
+            node[b"Parent"] = parent
+        for key, how in plan.get(lvl, {}).items():
+            node[key] = value(key, how, lvl)
+        if lvl + 1 >= levels or len(refs) < 2:
+            node[b"Kids"] = list(refs)
+            for r in refs:
+                d.objects[r.n][b"Parent"] = me
+        else:
+            half = (len(refs) + 1) // 2
+            node[b"Kids"] = [build(lvl + 1, refs[:half], me), build(lvl + 1, refs[half:], me)]
+        d.objects[me.n] = node
+        return me
+    build(0, page_refs, None)
+    # a page that would end up without the two required attributes gets its own
+    for r in page_refs:
+        for key, own in ((b"Resources", {b"Font": {b"F1": fonts[0]}}), (b"MediaBox", [0, 0, 612, 792])):
+            o = d.objects[r.n]
+            while o is not None and key not in o:
+                o = d.objects[o[b"Parent"].n] if b"Parent" in o else None
+            if o is None:
+                d.objects[r.n][key] = own
+    d.objects[cat.n] = D(Type=N("Catalog"), Pages=root)
+    d.trailer = {b"Root": cat}
+    return d
+
+
+def inh_plans(rng, quick):
+    """(name, levels, plan): every inheritable key alone on the root and alone on an intermediate node, all four together, random mixtures"""
+    out = []
+    for key in INH_KEYS:
+        nm = key.decode().lower()
+        out.append(("root-" + nm, 1, {0: {key: rng.choice(["direct", "indirect"])}}))
+        out.append(("mid-" + nm, 2, {1: {key: rng.choice(["direct", "indirect"])}}))
+    out.append(("all-root", 2, {0: {k: "indirect" if i % 2 == 0 else "direct" for i, k in enumerate(INH_KEYS)}, 1: {b"CropBox": "indirect", b"Rotate": "direct"}}))
+    for i in range(3 if quick else 40):
+        levels = rng.choice([1, 2, 2, 3])
+        plan = {}
+        for lv in range(levels):
+            m = plan.setdefault(lv, {})
+            for key in INH_KEYS:
+                if rng.random() < 0.45:
+                    m[key] = rng.choice(["direct", "indirect"])
+        plan[-1] = set(k for k in INH_KEYS if rng.random() < 0.3)
+        out.append(("mix%d" % i, levels, plan))
     return out
 
 
@@ -680,6 +864,29 @@ def build_jobs(chk, wd):
             inputs.append(inp)
             for cfg in [("none", "disable", []), ("none", "generate", [])] + ([] if quick else [("none", "preserve", ["--compress-streams=n"]), ("aes256", "disable", [])]):
                 jobs.append((inp, cfg))
+    # user-pair shapes: an object used by a catalog / trailer / thumbnail user K and by one later page, two later pages, the first and a
+    # later page; outline tree absent / present / opened with the document
+    for k in PAIR_KINDS:
+        for outl in (("plain", "use") if k.startswith("outline-") else ("none", "use")):
+            name = "pair-%s-%s" % (k, outl)
+            p = os.path.join(wd, name + ".pdf")
+            open(p, "wb").write(pdfgen.write_classic(pair_doc(k, outl))[0])
+            inp = {"name": "probe-" + name, "path": p, "kind": "generated-user-pair", "npages": 6, "features": ["second-user=" + k, "outlines=" + outl], "id": "none"}
+            inputs.append(inp)
+            for cfg in [("none", "disable", []), ("none", "generate", [])] + ([] if quick else [("none", "preserve", ["--compress-streams=n"]), ("none", "disable", ["--stream-data=preserve"]),
+                                                                                           ("aes256", "disable", [])]):
+                jobs.append((inp, cfg))
+    # inheritance shapes: each inheritable attribute on the root / on an intermediate /Pages node, all together, random mixtures
+    for nm_, lv, plan in inh_plans(rng, quick):
+        name = "inh-" + nm_
+        d = inh_doc(rng, lv, plan)
+        p = os.path.join(wd, name + ".pdf")
+        open(p, "wb").write(pdfgen.write_classic(d)[0])
+        inp = {"name": "probe-" + name, "path": p, "kind": "generated-inherited-attributes", "npages": None,
+               "features": ["levels=%d" % lv] + ["%s:%s" % ("pages" if l < 0 else "level%d" % l, ",".join(sorted(x.decode() for x in m))) for l, m in sorted(plan.items())], "id": "none"}
+        inputs.append(inp)
+        for cfg in [("none", "disable", []), ("none", "preserve", ["--compress-streams=n"]), ("none", "generate", [])] + ([] if quick else [("aes256", "disable", []), ("none", "disable", ["--stream-data=preserve"])]):
+            jobs.append((inp, cfg))
     for inp in boundary_docs(chk, wd, None):
         inp = dict(inp, name="probe-" + inp["name"])
         inputs.append(inp)
@@ -688,6 +895,12 @@ def build_jobs(chk, wd):
             jobs.append((inp, ("aes256", "generate", ["--compress-streams=n"])))
             if inp["kind"] == "boundary-2^16":
                 jobs.append((inp, ("none", "generate", [])))
+    for encf in ("enc-R2,V1.pdf", "enc-R3,V2.pdf"):
+        pth = os.path.join(filecheck.CORPUS_DIR, encf)
+        if os.path.exists(pth):
+            jobs.append(({"name": "probe-" + encf, "path": pth, "kind": "corpus", "npages": None, "features": ["encrypted input, written without encryption"], "id": "?"},
+                         ("none", "disable", ["--normalize-content=y"])))
+            break
     g9 = os.path.join(filecheck.CORPUS_DIR, "good9.pdf")
     if os.path.exists(g9):
         jobs.append(({"name": "good9.pdf", "path": g9, "kind": "corpus", "npages": None, "features": [], "id": "?"}, ("aes128", "disable", [])))
@@ -706,8 +919,7 @@ def build_jobs(chk, wd):
     return inputs, jobs
 
 
-def part_files(chk, runner):
-    wd = common.workdir("C07")
+def part_files(chk, runner, wd):
     inputs, jobs = build_jobs(chk, wd)
 
     def runjob(i):
@@ -774,11 +986,39 @@ def part_files(chk, runner):
             continue
         n_parts_objs += int(f[0])
         if len(f) > 1 and f[1]:
-            tie_parts.append({"input": jobs[i][0]["path"], "features": jobs[i][0]["features"], "argv": ["qpdf"] + args,
-                              "objects_(number:model_part:observed_part)": f[1][:300]})
+            # an object without any user that sits in part 4 and is a security handler dictionary: the INPUT's encryption dictionary, written
+            # although the output is not encrypted (a deviation with a concrete input, not a disagreement between model and implementation)
+            odata = open(out, "rb").read()
+            rest = []
+            for d3 in f[1].split(","):
+                num, mp, op_ = d3.split(":")
+                m3 = re.search(rb"(?:^|\n)%s 0 obj\n<<(.{0,600}?)>>\nendobj" % num.encode(), odata, re.S)
+                if mp == "0" and op_ == "4" and m3 and b"/Filter /" in m3.group(1) and b"/V " in m3.group(1) and b"/Encrypt" not in odata[-600:]:
+                    chk.violation({"kind": "property-fails-on-implementation", "part": "parts-classification", "input": jobs[i][0]["path"], "argv": ["qpdf"] + args,
+                                   "why": "part 4 of the unencrypted output holds the input's encryption dictionary as an object nothing references", "object": int(num),
+                                   "object_text": m3.group(0).decode("latin-1")[:300]}, signature="lin:orphan-encryption-dictionary")
+                else:
+                    rest.append(d3)
+            if rest:
+                tie_parts.append({"input": jobs[i][0]["path"], "features": jobs[i][0]["features"], "argv": ["qpdf"] + args,
+                                  "objects_(number:model_part:observed_part)": ",".join(rest)[:300]})
+    # shared-object identifiers: model of the last loop of calculateLinearizationData (Lin/SharedIds.v) on the users found in the file
+    souts = common.run_lines(runner, ["linshared " + done[k][2] for k in pj], shards=4)
+    tie_shared = []
+    n_shared_pages = 0
+    for k, o in zip(pj, souts):
+        i, rc, out, args = done[k]
+        f = o.split(" ")
+        if o == "none" or not f[0].isdigit():
+            tie_shared.append({"input": jobs[i][0]["path"], "argv": ["qpdf"] + args, "result": o[:200]})
+            continue
+        n_shared_pages += int(f[0])
+        if len(f) > 1 and f[1]:
+            tie_shared.append({"input": jobs[i][0]["path"], "features": jobs[i][0]["features"], "argv": ["qpdf"] + args,
+                               "pages_(index:model_identifiers:file_identifiers)": f[1][:300]})
     nontriv = set()
     kinds, clauses_seen = {}, {}
-    tie_hint, tie_arith, tie_show, tie_p1 = [], [], [], []
+    tie_hint, tie_arith, tie_show, tie_p1, tie_push = [], [], [], [], []
     n_tables = n_enc = 0
     for (i, rc, out, args), rep, (r1, r2) in zip(done, reps, qres):
         inp, cfg = jobs[i]
@@ -793,14 +1033,24 @@ def part_files(chk, runner):
             chk.violation(dict(case, kind="property-fails-on-implementation", part="annex-f", clause=c, why=CLAUSE.get(c, "clause %s" % c),
                                measured_or_expected=a, stated_or_found=b, parameters=dict(zip(["L", "H0", "H1", "O", "E", "N", "T"], rep.get("params", []))),
                                raw=rep.get("raw")), signature=signature_of(e, rep, xref_stream, cfg[0] != "none", data))
+        # model of pushInheritedAttributesToPage (C12, pa_pushdown_effective: pa_clean): no page inherits anything in a linearized output
+        inh = [n for n in rep.get("notes", []) if n[0] == 50]
+        if inh and not any(e[0] in (512, 535) for e in rep["errors"]):
+            tie_push.append(dict(case, **{"pages_still_inheriting_(page_index,node)": [(n[1], n[2]) for n in inh][:6]}))
         # --check-linearization accepts the file without warning
         c_rc, c_so, c_se = r1
         if c_rc != 0 or b"no linearization errors" not in c_so or b"WARNING" in c_se:
             # a damaged corpus input (write exit 3) may leave streams that cannot be decoded (e.g. a broken encryption dictionary: the hint
             # stream is then unreadable for qpdf); what is not tolerated is a complaint about the linearization data or the file structure
+            # (the location prefix "(xref stream: object 3 0, offset 393)" of a warning is not part of its message)
             tolerated = (inp["kind"] == "corpus" and rc == 3 and c_rc == 3 and
-                         not re.search(rb"mismatch|not linearized|file is damaged|xref|compressed|hint table", c_se + c_so))
-            if not tolerated:
+                         not re.search(rb"mismatch|not linearized|file is damaged|xref|compressed|hint table", re.sub(rb"\([^()\n]*?offset \d+\)", b"", c_se) + c_so))
+            # encryption preserved from a dictionary without /Length (C06-F7): the output cannot be decrypted, with or without --linearize
+            if (inp["kind"] == "corpus" and rc == 3 and cfg[0] == "none" and b"/Encrypt" in data and
+                    b"dictionary key /Length: operation for integer attempted on object of type null" in res[i][1]):
+                chk.violation(dict(case, kind="property-fails-on-implementation", part="check-linearization", why="encryption preserved from an encryption dictionary without /Length: the output cannot be decrypted",
+                                   check_exit=c_rc, stderr=c_se.decode("latin-1")[-400:]), signature="lin:preserved-encryption-without-length")
+            elif not tolerated:
                 chk.violation(dict(case, kind="property-fails-on-implementation", part="check-linearization", why="qpdf --check-linearization does not accept the file silently",
                                    check_exit=c_rc, stdout=c_so.decode("latin-1")[-300:], stderr=c_se.decode("latin-1")[-400:]),
                               signature=("lin:encrypt-trailer-string-damaged" if cfg[0] != "none" and not xref_stream and trailer_has_direct_string(data) and rep["errors"] and rep["errors"][0][0] == 1
@@ -834,7 +1084,7 @@ def part_files(chk, runner):
             inp, cfg = jobs[i]
             tie_p1.append({"input": inp["path"], "config": cfg_name(cfg), "differences": dd[:3]})
     for name, lst in (("hint-encoder", tie_hint), ("lindict-arithmetic", tie_arith), ("show-linearization", tie_show), ("pass-agreement", tie_p1),
-                      ("parts-classification", tie_parts)):
+                      ("parts-classification", tie_parts), ("shared-identifiers", tie_shared), ("pushdown-clean", tie_push)):
         if lst:
             chk.violation({"kind": "correspondence-broken", "correspondence": "corr:C07:" + name, "differing_cases": len(lst), "first_cases": lst[:2],
                            "note": "the Annex F checker accepts the outputs, but the model / qpdf's own reading no longer agrees with the real bytes"}, no_input=True)
@@ -847,8 +1097,108 @@ def part_files(chk, runner):
     pp["encrypted_outputs_(dictionary/offset_clauses_only)"] = n_enc
     pp["pass1_files_compared"] = len(p1jobs)
     pp["objects_classified_by_the_parts_model"] = n_parts_objs
+    pp["page_identifier_lists_computed_by_the_shared-identifier_model"] = n_shared_pages
     pp["clauses_failed"] = {str(k): v for k, v in clauses_seen.items()}
     pp["pages_distribution"] = sorted(set(inp["npages"] for inp in inputs if inp["npages"]))
+
+
+def part_qdf(chk, runner, top):
+    """--qdf together with --linearize, in both orders: the manual (cli.rst, --qdf) says "--linearize disables QDF mode", so the output has to be an
+    ordinary linearized file. Known to fail on the pinned tree (C07-QDF-LINEARIZE); re-observed on every run."""
+    wd = os.path.join(top, "qdf")
+    os.makedirs(wd, exist_ok=True)
+    docs = [("pair", pair_doc("pages-only", "none")), ("pd", pdfgen.page_doc(3, marker="Q", kids_levels=2))]
+    cases = []
+    for nm_, d in docs:
+        p = os.path.join(wd, nm_ + ".pdf")
+        open(p, "wb").write(pdfgen.write_classic(d)[0])
+        for order in (["--linearize", "--qdf"], ["--qdf", "--linearize"]):
+            for o in ("disable", "generate"):
+                cases.append((p, order + ["--object-streams=" + o], os.path.join(wd, "qdf-out%d.pdf" % len(cases))))
+    res = common.par_map(lambda c: common.run_qpdf(["--static-id"] + c[1] + [c[0], c[2]]), cases, workers=4)
+    good = [c for c, r in zip(cases, res) if r[0] == 0 and os.path.exists(c[2])]
+    reps = dict(zip([c[2] for c in good], lin_read([c[2] for c in good])))
+    for c, (rc, so, se) in zip(cases, res):
+        case = {"input": c[0], "input_kind": "generated", "argv": ["qpdf", "--static-id"] + c[1] + [c[0], c[2]], "qpdf_exit": rc}
+        if rc != 0:
+            chk.violation(dict(case, kind="property-fails-on-implementation", part="qdf-and-linearize", why="--linearize with --qdf does not write a file (the manual: --linearize disables QDF mode)",
+                               stderr=se.decode("latin-1")[-300:], output_size=os.path.getsize(c[2]) if os.path.exists(c[2]) else None), signature="lin:qdf-and-linearize")
+            continue
+        errs = [e for e in reps[c[2]]["errors"] if signature_of(e, reps[c[2]], b"/Type /XRef" in open(c[2], "rb").read()) != "lin:T-xref-stream-minus-1"]
+        if errs:
+            chk.violation(dict(case, kind="property-fails-on-implementation", part="qdf-and-linearize", why="the file written with --qdf --linearize is not a valid linearized file: " + CLAUSE.get(errs[0][0], "?"),
+                               clause=errs[0][0], measured_or_expected=errs[0][1], stated_or_found=errs[0][2]), signature="lin:qdf-and-linearize")
+    chk.count("qdf-and-linearize", len(cases), set((os.path.basename(c[0]), " ".join(c[1])) for c in cases))
+
+
+API_OPS = ["check", "islin", "pages", "push", "wplain", "wlind", "wling"]
+
+
+def part_api(chk, drv, runner, top):
+    """public-API histories on one QPDF object that end in a linearized write (drv_lin.cc: linapi). Inputs: generated documents, their
+    CLI-linearized forms (with and without object streams) and linearized files of other producers from the repository corpus (indirect /Length).
+    The output of every history must satisfy the same clauses as a CLI output. Histories in which checkLinearization() or an earlier linearized
+    write has filled the object-user maps are known to fail (C07-API-STALE-USER-MAPS): they are run and reported under that signature."""
+    rng = chk.rng
+    quick = chk.tier == "quick"
+    wd = os.path.join(top, "api")
+    os.makedirs(wd, exist_ok=True)
+    base = [("pair", pair_doc("outline-dest", "use")), ("inh", inh_doc(rng, 2, {0: {b"MediaBox": "direct", b"CropBox": "indirect"}, 1: {b"Rotate": "direct", b"Resources": "indirect"}}, npages=5)),
+            ("pd", pdfgen.page_doc(4, marker="A", kids_levels=2, rotate={1: 90}))]
+    inputs = []
+    for nm_, d in base:
+        p = os.path.join(wd, nm_ + ".pdf")
+        open(p, "wb").write(pdfgen.write_classic(d)[0])
+        inputs.append((nm_, p, False))
+        for o in ("disable", "generate"):
+            lp = os.path.join(wd, "%s-lin-%s.pdf" % (nm_, o))
+            rc, so, se = common.run_qpdf(["--static-id", "--linearize", "--object-streams=" + o, p, lp])
+            if rc == 0:
+                inputs.append(("%s-lin-%s" % (nm_, o), lp, True))
+    for f in ["lin1.pdf", "lin3.pdf", "lin5.pdf"] + ([] if quick else ["lin0.pdf", "lin2.pdf", "lin4.pdf", "lin6.pdf", "lin7.pdf", "lin8.pdf", "lin9.pdf", "lin-special.pdf"]):
+        pth = os.path.join(filecheck.CORPUS_DIR, f)
+        if os.path.exists(pth) and os.path.getsize(pth) <= 60000:
+            inputs.append((f, pth, True))
+    seqs = [[], ["pages"], ["push"], ["islin"], ["wplain"], ["islin", "pages", "push", "wplain"], ["check"], ["wlind"], ["wling"], ["check", "wplain"], ["wlind", "check"]]
+    for _ in range(4 if quick else 60):
+        seqs.append([rng.choice(API_OPS) for _ in range(rng.choice([1, 2, 3, 5]))])
+    cases = []
+    for si, ops in enumerate(seqs):
+        use = inputs if not quick else [inputs[(si * 3 + j) % len(inputs)] for j in range(3)]
+        for nm_, pth, is_lin in use:
+            mode = "dgp"[(si + len(cases)) % 3]
+            cases.append((nm_, pth, is_lin, ops, mode, os.path.join(wd, "api-out%d.pdf" % len(cases))))
+    outs = common.run_lines(drv, ["linapi %s %s %s %s" % (c[1], c[5], ",".join(c[3]) or "-", c[4]) for c in cases], shards=4)
+    ok = [(c, o) for c, o in zip(cases, outs) if o == "ok" and os.path.exists(c[5]) and os.path.getsize(c[5]) <= MAXSIZE]
+    reps = lin_read([c[5] for c, _ in ok])
+    qres = common.par_map(lambda c: common.run_qpdf(["--check-linearization", c[0][5]]), ok, workers=4)
+    repmap = {c[5]: (rep, q) for (c, _), rep, q in zip(ok, reps, qres)}
+    nontriv = set()
+    for c, o in zip(cases, outs):
+        nm_, pth, is_lin, ops, mode, out = c
+        # the object-user maps of the QPDF object are already filled when the final write starts
+        stale = any(x in ("wlind", "wling") for x in ops) or ("check" in ops and is_lin)
+        case = {"input": pth, "input_kind": "api-history", "api_calls_before_the_linearized_write": ops, "object_streams_of_the_final_write": {"d": "disable", "g": "generate", "p": "preserve"}[mode],
+                "replay_with": "_build/drv/drv <<< 'linapi %s OUT %s %s'" % (pth, ",".join(ops) or "-", mode)}
+        if o != "ok":
+            chk.violation(dict(case, kind="property-fails-on-implementation", part="api-sequences", why="the linearized write after these calls throws", result=o[:300]),
+                          signature="lin:api:stale-user-maps" if stale else "lin:api:exception")
+            continue
+        if out not in repmap:
+            continue
+        nontriv.add((nm_, tuple(ops), mode))
+        rep, (c_rc, c_so, c_se) = repmap[out]
+        data = open(out, "rb").read()
+        for e in rep["errors"]:
+            sig = signature_of(e, rep, b"/Type /XRef" in data)       # a deviation the CLI output has as well keeps its own signature
+            if stale and chk.known_match(sig) is None:
+                sig = "lin:api:stale-user-maps"
+            chk.violation(dict(case, kind="property-fails-on-implementation", part="api-sequences", clause=e[0], why=CLAUSE.get(e[0], "clause %s" % e[0]), measured_or_expected=e[1], stated_or_found=e[2],
+                               raw=rep.get("raw")), signature=sig)
+        if c_rc != 0 or b"no linearization errors" not in c_so or b"WARNING" in c_se:
+            chk.violation(dict(case, kind="property-fails-on-implementation", part="api-sequences", why="qpdf --check-linearization does not accept the file silently",
+                               check_exit=c_rc, stderr=c_se.decode("latin-1")[-300:]), signature="lin:api:stale-user-maps" if stale else "lin:api:check-linearization")
+    chk.count("api-sequences", len(cases), nontriv, samples=[{"input": os.path.basename(c[1]), "calls": c[3], "mode": c[4]} for c in cases[6:8]])
 
 
 def run(chk):
@@ -857,12 +1207,16 @@ def run(chk):
     chk.cov["rule"] = ("linearized-outputs: (input, configuration) pairs; inputs = generated documents (1..40 pages; features drawn from shared/private resources, thumbnails, "
                        "outlines with and without /PageMode /UseOutlines, AcroForm, threads, viewer preferences, open action, names, metadata, info, two-level page tree with "
                        "inherited attributes, indirect resources, several content streams, link annotations; original /ID of length none/0/5/16/32), pdfgen.page_doc documents, "
-                       "2-page documents padded to the 2^16 offset boundary, sharing-shape documents (an object of the first page also used by another page's thumbnail / its own thumbnail / a later page / a later page's annotation / outlines / names / AcroForm / open action / threads / viewer preferences / another catalog key / info), 1..3-page documents whose last first-page object is swept in 30-byte steps across [2^16 - 60, 2^16 + hint length + 60] (thorough: also 2^24, judged by a Python-side xref-stream oracle), repository corpus files; configurations = {5 encryption settings} x {disable,preserve,generate} x "
+                       "2-page documents padded to the 2^16 offset boundary, sharing-shape documents (an object of the first page also used by another page's thumbnail / its own thumbnail / a later page / a later page's annotation / outlines / names / AcroForm / open action / threads / viewer preferences / another catalog key / info), 1..3-page documents whose last first-page object is swept in 30-byte steps across [2^16 - 60, 2^16 + hint length + 60] (thorough: also 2^24, judged by a Python-side xref-stream oracle), user-pair documents (6 pages; an indirect object used by a second user K - outline item /A, /Dest or other entry, /Names, another catalog key, /Info, /OpenAction, /AcroForm, /Threads, /ViewerPreferences, another page's /Thumb, the page's own /Thumb, none - and by exactly one later page / two later pages / the first and a later page, outline tree absent, present, or opened with the document by /PageMode /UseOutlines), inherited-attribute documents (page trees of 1..3 levels; each of /Resources, /MediaBox, /CropBox, /Rotate alone on the root and alone on an intermediate /Pages node, all four together, random mixtures with direct / indirect values and pages that override), repository corpus files; configurations = {5 encryption settings} x {disable,preserve,generate} x "
                        "{7 stream-data settings}; each written by the real `qpdf --linearize --static-id`, read by the extracted Annex F checker, by qpdf --check-linearization and "
                        "--show-linearization; non-trivial = write completed and output <= 150 kB, distinct by (input, configuration). "
+                       "qdf-and-linearize: --qdf with --linearize in both orders (manual: --linearize disables QDF mode). api-sequences: histories of checkLinearization / isLinearized / getAllPages / pushInheritedAttributesToPage / plain and linearized writes to memory on one QPDF object, then a linearized write, on generated documents, their linearized forms and linearized corpus files of other producers. "
                        "bitio: random writeBits/flush and getBits sequences (widths 0..40, values beyond the width) on the real BitWriter/BitStream, the model and the Annex F field reader")
     part_bitio(chk, drv, runner)
-    part_files(chk, runner)
+    wd = common.workdir("C07")      # emptied once per run: the inputs named by the replays stay until the next run
+    part_files(chk, runner, wd)
+    part_qdf(chk, runner, wd)
+    part_api(chk, drv, runner, wd)
 
 
 def replay(chk, rep):
